@@ -1,7 +1,9 @@
 package rules
 
 import (
+	"go/token"
 	"go/types"
+	"sort"
 	"strings"
 
 	"golang.org/x/tools/go/ssa"
@@ -207,4 +209,202 @@ func cbpFuncs(c *core.Ctx, p *core.Prog) []*ssa.Function {
 	return p.FuncsIn(func(pp string) bool {
 		return pp == core.CBPPath || (core.IsCanaryPath(pp) && c.InScope(pp))
 	})
+}
+
+// ---------- further anchors (resolved lazily) ----------
+
+// selectStates returns the states of sel with the given direction.
+func selectStates(sel *ssa.Select, dir types.ChanDir) []*ssa.SelectState {
+	var out []*ssa.SelectState
+	for _, s := range sel.States {
+		if s.Dir == dir {
+			out = append(out, s)
+		}
+	}
+	return out
+}
+
+// selectArm returns the first block of the arm for state index k of sel
+// (the block entered when the select's index result equals k), and the edge
+// taken. For non-blocking selects, k == len(States) denotes the default arm.
+func selectArm(sel *ssa.Select, k int) (core.Edge, bool) {
+	var idx ssa.Value
+	for _, r := range core.Referrers(sel) {
+		if e, ok := r.(*ssa.Extract); ok && e.Index == 0 {
+			idx = e
+		}
+	}
+	if idx == nil {
+		return core.Edge{}, false
+	}
+	// chain of `idx == j` tests
+	var lastElse core.Edge
+	haveElse := false
+	for _, r := range core.Referrers(idx) {
+		cmp, ok := r.(*ssa.BinOp)
+		if !ok || cmp.Op != token.EQL {
+			continue
+		}
+		j, ok := core.ConstInt(cmp.Y)
+		if !ok {
+			continue
+		}
+		for _, r2 := range core.Referrers(cmp) {
+			iff, ok := r2.(*ssa.If)
+			if !ok {
+				continue
+			}
+			if int(j) == k {
+				return core.Edge{From: iff.Block(), To: iff.Block().Succs[0]}, true
+			}
+			if int(j) == len(sel.States)-1 {
+				lastElse = core.Edge{From: iff.Block(), To: iff.Block().Succs[1]}
+				haveElse = true
+			}
+		}
+	}
+	if !sel.Blocking && k == len(sel.States) && haveElse {
+		return lastElse, true
+	}
+	return core.Edge{}, false
+}
+
+// chanElem returns the element type if t is a channel.
+func chanElem(t types.Type) types.Type {
+	if ch, ok := t.Underlying().(*types.Chan); ok {
+		return ch.Elem()
+	}
+	return nil
+}
+
+type cbpMore struct {
+	itemChanField *types.Var // shard field: chan dataItem
+	itemType      types.Type
+	loopFn        *ssa.Function // go target receiving from the item channel
+	mainSelect    *ssa.Select
+	processFn     *ssa.Function // invokes batch.add
+	enqueueFn     *ssa.Function // select-sends on the item channel
+	enqueueSelect *ssa.Select
+	waitFn        *ssa.Function // receives the counted errors
+	waitSelect    *ssa.Select
+	countedErr    *types.Named
+	multiConsume  *ssa.Function // uses sync.Map.LoadOrStore
+	shutdownChan  *types.Var    // field closed by Shutdown
+	shutdownFn    *ssa.Function
+	newShardFn    *ssa.Function
+	ctorFn        *ssa.Function // allocates the processor struct
+	procType      *types.Named
+	errs          []string
+}
+
+func (a *cbpAnchors) more() *cbpMore {
+	m := &cbpMore{}
+	if a.shard == nil {
+		m.errs = append(m.errs, "shard struct not found")
+		return m
+	}
+	st := a.shard.Underlying().(*types.Struct)
+	for i := 0; i < st.NumFields(); i++ {
+		f := st.Field(i)
+		if el := chanElem(f.Type()); el != nil {
+			if es, ok := el.Underlying().(*types.Struct); ok {
+				for j := 0; j < es.NumFields(); j++ {
+					if isAny(es.Field(j).Type()) {
+						m.itemChanField, m.itemType = f, el
+					}
+				}
+			}
+		}
+		if n := core.NamedOf(f.Type()); n != nil && n.Obj().Pkg() != nil && n.Obj().Pkg().Path() == core.CBPPath {
+			if _, isStruct := n.Underlying().(*types.Struct); isStruct {
+				m.procType = n
+			}
+		}
+	}
+	if m.itemChanField == nil {
+		m.errs = append(m.errs, "shard has no channel field carrying request items")
+		return m
+	}
+	isItemChan := func(v ssa.Value) bool {
+		fa := core.LoadedField(v)
+		return fa != nil && core.FieldVar(fa) == m.itemChanField
+	}
+	fns := a.p.FuncsIn(func(pp string) bool { return pp == core.CBPPath })
+	for _, fn := range fns {
+		core.EachInstr(fn, func(i ssa.Instruction) {
+			switch x := i.(type) {
+			case *ssa.Select:
+				for _, s := range x.States {
+					switch {
+					case s.Dir == types.RecvOnly && isItemChan(s.Chan) && x.Blocking:
+						m.loopFn, m.mainSelect = fn, x
+					case s.Dir == types.SendOnly && isItemChan(s.Chan):
+						m.enqueueFn, m.enqueueSelect = fn, x
+					case s.Dir == types.RecvOnly && chanElem(s.Chan.Type()) != nil:
+						if n := core.NamedOf(chanElem(s.Chan.Type())); n != nil && n.Obj().Pkg() != nil && n.Obj().Pkg().Path() == core.CBPPath {
+							if es, ok := n.Underlying().(*types.Struct); ok && es.NumFields() == 2 {
+								if _, isParam := s.Chan.(*ssa.Parameter); isParam {
+									m.waitFn, m.waitSelect, m.countedErr = fn, x, n
+								}
+							}
+						}
+					}
+				}
+			case *ssa.Call:
+				if x.Call.IsInvoke() && x.Call.Method == a.mAdd {
+					m.processFn = fn
+				}
+				if f := core.CalleeObj(x); f != nil {
+					if core.IsMethodOf(f, "sync", "Map", "LoadOrStore") {
+						m.multiConsume = fn
+					}
+				}
+				if b, ok := x.Call.Value.(*ssa.Builtin); ok && b.Name() == "close" {
+					if fa := core.LoadedField(x.Call.Args[0]); fa != nil {
+						m.shutdownChan = core.FieldVar(fa)
+						m.shutdownFn = fn
+					}
+				}
+			case *ssa.Alloc:
+				if n := core.NamedOf(x.Type()); n != nil {
+					if n.Obj() == a.shard.Obj() && x.Heap {
+						m.newShardFn = fn
+					}
+					if m.procType != nil && n.Obj() == m.procType.Obj() && x.Heap {
+						m.ctorFn = fn
+					}
+				}
+			}
+		})
+	}
+	need := map[string]bool{"shard loop": m.loopFn != nil, "item handler (calls batch.add)": m.processFn != nil, "enqueue function": m.enqueueFn != nil,
+		"wait function": m.waitFn != nil, "multi-shard consume (LoadOrStore)": m.multiConsume != nil, "shutdown channel (close)": m.shutdownChan != nil,
+		"shard constructor": m.newShardFn != nil, "processor constructor": m.ctorFn != nil}
+	for k, ok := range need {
+		if !ok {
+			m.errs = append(m.errs, k+" not found")
+		}
+	}
+	sort.Strings(m.errs)
+	return m
+}
+
+func (m *cbpMore) ok(c *core.Ctx) bool {
+	if len(m.errs) > 0 {
+		c.Undecided("anchors", "?", "", "cannot resolve batch-processor anchors: "+strings.Join(m.errs, "; "))
+		return false
+	}
+	return true
+}
+
+// isCallTo reports whether ins is a (non-go, non-defer) call of fn.
+func isCallTo(ins ssa.Instruction, fn *ssa.Function) bool {
+	c, ok := ins.(*ssa.Call)
+	return ok && c.Call.StaticCallee() == fn
+}
+
+// invokes reports whether ins invokes interface method m.
+func invokes(ins ssa.Instruction, m *types.Func) bool {
+	c, ok := ins.(*ssa.Call)
+	return ok && c.Call.IsInvoke() && c.Call.Method == m
 }
